@@ -9,11 +9,16 @@ use vcore::*;
 use wow_mpq::single_archive_parallel::{extract_with_config, ParallelArchive, ParallelConfig};
 use wow_mpq::Archive;
 
-const THREADS: [usize; 7] = [1, 2, 3, 4, 8, 16, 32];
-const LENS: [usize; 9] = [0, 1, 9, 10, 11, 999, 1000, 1001, 1100];
+const THREADS_ALL: [usize; 7] = [1, 2, 3, 4, 8, 16, 32];
+const LENS_ALL: [usize; 9] = [0, 1, 9, 10, 11, 999, 1000, 1001, 1100];
+// space big: request lists around the second size threshold of extract_with_config (5000 names)
+const THREADS_BIG: [usize; 3] = [1, 4, 32];
+const LENS_BIG: [usize; 4] = [4999, 5000, 5001, 6200];
 const MISS: [&str; 4] = ["none", "first", "middle", "last"];
 
 struct Sweep {
+    threads: Vec<usize>,
+    lens: Vec<usize>,
     dir: Scratch,
     arch: PathBuf,
     batches: Vec<usize>,
@@ -21,17 +26,18 @@ struct Sweep {
     reps: usize,
 }
 impl Sweep {
-    fn new(tier: Tier) -> Self {
-        let dir = Scratch::new("c09cfg");
+    fn new(tier: Tier, big: bool) -> Self {
+        let (threads, lens) = if big { (THREADS_BIG.to_vec(), LENS_BIG.to_vec()) } else { (THREADS_ALL.to_vec(), LENS_ALL.to_vec()) };
+        let dir = Scratch::new(if big { "c09big" } else { "c09cfg" });
         let mut files = vec![];
         for i in 0..1100 {
             files.push(WFile { method: if i % 3 == 0 { mpqref::M_ZLIB } else { 0 }, ..WFile::plain(&format!("d{}\\f{i:04}.bin", i % 7), &vec![(i % 251) as u8; 1 + (i % 40) * 3]) });
         }
         let arch = dir.path("sweep.mpq");
         std::fs::write(&arch, mpqref::write(&files, &WOptions { hash_size: 4096, ..WOptions::default() }).unwrap()).unwrap();
-        let batches = vec![1, 2, 7, 10, 0]; // 0 = N (whole list)
-        let radices = vec![THREADS.len() as u64, batches.len() as u64, LENS.len() as u64, 2, MISS.len() as u64];
-        Sweep { dir, arch, batches, radices, reps: tier.pick(1, 3) }
+        let batches = if big { vec![10, 334, 0] } else { vec![1, 2, 7, 10, 0] }; // 0 = N (whole list)
+        let radices = vec![threads.len() as u64, batches.len() as u64, lens.len() as u64, 2, MISS.len() as u64];
+        Sweep { threads, lens, dir, arch, batches, radices, reps: tier.pick(1, 3) }
     }
 }
 fn name(i: usize) -> String {
@@ -43,14 +49,14 @@ impl Space for Sweep {
     }
     fn describe(&self, i: u64) -> Value {
         let d = gen::mixed_radix(i, &self.radices);
-        json!({"threads": THREADS[d[0] as usize], "batch": self.batches[d[1] as usize], "list_len": LENS[d[2] as usize], "skip_errors": d[3] == 1, "missing": MISS[d[4] as usize]})
+        json!({"threads": self.threads[d[0] as usize], "batch": self.batches[d[1] as usize], "list_len": self.lens[d[2] as usize], "skip_errors": d[3] == 1, "missing": MISS[d[4] as usize]})
     }
     fn case_timeout(&self) -> u64 {
         300
     }
     fn run(&self, i: u64) -> CaseResult {
         let d = gen::mixed_radix(i, &self.radices);
-        let (threads, len, skip, miss) = (THREADS[d[0] as usize], LENS[d[2] as usize], d[3] == 1, MISS[d[4] as usize]);
+        let (threads, len, skip, miss) = (self.threads[d[0] as usize], self.lens[d[2] as usize], d[3] == 1, MISS[d[4] as usize]);
         let batch = if self.batches[d[1] as usize] == 0 { len.max(1) } else { self.batches[d[1] as usize] };
         let mut r = CaseResult::new();
         r.key = format!("{i}");
@@ -258,7 +264,8 @@ impl Space for Seq {
 }
 fn build(name: &str, _arg: &str, tier: Tier) -> Box<dyn Space> {
     match name {
-        "sweep" => Box::new(Sweep::new(tier)),
+        "sweep" => Box::new(Sweep::new(tier, false)),
+        "big" => Box::new(Sweep::new(tier, true)),
         "seq" => Box::new(Seq::new(tier)),
         _ => panic!("space {name}"),
     }
@@ -267,9 +274,10 @@ fn main() {
     let Mode::Supervisor(mut c) = start("C09", "model_checking", build) else { return };
     // each case spawns its own pools of up to 32 threads: run fewer worker processes
     c.jobs = c.jobs.min(6);
-    c.rule = "full product threads {1,2,3,4,8,16,32} x batch {1,2,7,10,N} x list length {0,1,9,10,11,999,1000,1001,1100} x skip_errors x missing position {none,first,middle,last} on the real rayon; slot-by-slot comparison with sequential reads (uncontrolled scheduler: decides the configuration clause only); space seq: every sequence of 1..3 (thorough 1..4) extractions over two archives holding the same names with different contents x 7 entry points x {global pool, installed pools of 1/2/4/8 threads} inside one process, each call compared with sequential reads of the archive it was given".into();
+    c.rule = "full product threads {1,2,3,4,8,16,32} x batch {1,2,7,10,N} x list length {0,1,9,10,11,999,1000,1001,1100} x skip_errors x missing position {none,first,middle,last} on the real rayon; slot-by-slot comparison with sequential reads (uncontrolled scheduler: decides the configuration clause only); space big: threads {1,4,32} x batch {10,334,N} x list length {4999,5000,5001,6200} (around the 5000-name threshold of extract_with_config) x skip_errors x missing position, unsorted request lists with duplicates; space seq: every sequence of 1..3 (thorough 1..4) extractions over two archives holding the same names with different contents x 7 entry points x {global pool, installed pools of 1/2/4/8 threads} inside one process, each call compared with sequential reads of the archive it was given".into();
     c.run_space("sweep", "");
     c.run_space("seq", "");
+    c.run_space("big", "");
     c.extra_cov.insert("states".into(), json!(1));
     c.extra_cov.insert("transitions".into(), json!(1));
     c.extra_cov.insert("traces_validated_against_impl".into(), json!(c.agg.evaluations));
